@@ -132,7 +132,7 @@ def fresh_partner(shape, dtype, a, seed):
     if kind == "plain":
         return make_source("src_plain", step)
     if kind == "qw" and len(shape) >= 2 and shape[0] > 1:
-        step["b"] = (a // 6) % 3  # axis 0
+        step["b"] = (a // 6) % 6  # every 8-bit qtype, quantized along the first (b < 3) or the LAST axis (b >= 3)
         return make_source("src_qw", step)
     if kind == "qbits" and len(shape) >= 2:
         step["b"] = (a // 6) % 2
